@@ -70,8 +70,7 @@ def run_case(case):
     if case.get("corpus") is not None:
         spec = S.corpus()[case["corpus"]]
     elif case.get("kind") == "iso":
-        # isolation-only cases outside G_live: non-blocking graphs WITH computation overruns (drift, queued messages at stop);
-        # a stall in run()/step() on such a graph is outside the supported class -> inconclusive, never a violation
+        # isolation cases outside G_live: non-blocking graphs WITH computation overruns (drift, queued messages at stop)
         spec = S.rand_spec(case["spec_seed"], allow_blocking=False, allow_advance=False, overrun=True, n_max=4)
     elif case.get("kind") == "tie":
         # zero delays and commensurate rates (exact arrival/start ties) with buffered and skipped connections, inside G_wide; no
@@ -232,12 +231,9 @@ def run_case(case):
     if deadlock is not None:
         e = state["ep"]
         mech = "stop_never_returns" if deadlock["op"].startswith("stop") else "call_never_returns"
-        if iso and mech == "call_never_returns":
-            items.append(dict(status="inconclusive", key=f"{dg}/{e}/stall", nontrivial=False, note="stall outside G_live (isolation-only case)"))
-            counters["stalls_outside_G_live"] += 1
-        else:
-            items.append(dict(status="violated", key=f"{dg}/{e}/{H[e]['end']}", nontrivial=True,
-                              witness=dict(mechanism=mech, deadlock=deadlock, **base_w)))
+        # (the isolation-only family is non-blocking, hence inside G_wide: since repairs 5.1-m/n a stall there is a violation too)
+        items.append(dict(status="violated", key=f"{dg}/{e}/{H[e]['end']}", nontrivial=True,
+                          witness=dict(mechanism=mech, deadlock=deadlock, **base_w)))
     elif th.is_alive():
         items.append(dict(status="inconclusive", key=f"{dg}/watchdog", nontrivial=False, note=f"watchdog: op={state['op']} still making progress"))
     elif state["err"]:
